@@ -236,6 +236,17 @@ theorem truncated (hX : X.Sound) (pre : Prog ε) (h : Hdr) (ss : List (Stmt ε))
       (rootOver (Prog.trees X pre ++ [h.node (sliceVal b none)]), sliceDiags b ++ [⟨h.kw.rng, h.endMsg⟩]) :=
   parse_of_top (truncated_top X hX pre h ss e hwf b hfree ((noContB_iff _ _).mp hcont))
 
+/-- the same for the real, memoising `parse_gold` -/
+theorem truncated_memo (hX : X.Sound) (pre : Prog ε) (h : Hdr) (ss : List (Stmt ε)) (e : Tok)
+    (hwf : Prog.WF X (pre ++ [h.decl (some (ss, e))])) (b : List Tok)
+    (hfree : TerminatorFree [h.endK, Kind.End] b) (hcont : noContB h.cont b = true) :
+    (parseGold (Prog.toks X pre ++ (h.toks ++ b))).1 = rootOver (Prog.trees X pre ++ [h.node (sliceVal b none)]) ∧
+    (⟨h.kw.rng, h.endMsg⟩ : Diag) ∈ (parseGold (Prog.toks X pre ++ (h.toks ++ b))).2.1 ∧
+    ∀ x, x ∈ (parseGold (Prog.toks X pre ++ (h.toks ++ b))).2.1 ↔ x ∈ sliceDiags b ++ [⟨h.kw.rng, h.endMsg⟩] := by
+  obtain ⟨h1, h2⟩ := C07.memo_invisible (Prog.toks X pre ++ (h.toks ++ b))
+  rw [truncated X hX pre h ss e hwf b hfree hcont] at h1 h2
+  exact ⟨h1, (h2 _).mpr (by simp), h2⟩
+
 /-- **a well-formed method whose end keyword was cut off**: reported, nothing else reported, the declarations before
     untouched, and the method keeps ALL of its statements (its node has the children of the intact method) -/
 theorem truncated_wellformed (hX : X.Sound) (pre : Prog ε) (h : Hdr) (ss : List (Stmt ε)) (e : Tok)
